@@ -324,7 +324,7 @@ def gen_c11(seed, size="quick"):
     dom = r.choice([6, 10, 16])
     edb(t, r, r.choice([15, 40, 90]) if size == "quick" else r.choice([40, 90, 200]), dom)
     t.meta["subsumed"] = []
-    kinds = r.sample(["shortest", "pareto", "latest", "shortest2", "countdown"], r.randrange(1, 3))
+    kinds = r.sample(["shortest", "pareto", "latest", "shortest2", "countdown", "via_helper", "merge"], r.randrange(1, 3))
     for kind in kinds:
         if kind == "shortest":
             bound = r.choice([12, 20, 30])
@@ -345,6 +345,34 @@ def gen_c11(seed, size="quick"):
             t.extra_text.append("sq(x,y,d1) <= sq(x,y,d2) :- d2 < d1.")
             t.meta["subsumed"].append({"rel": "sq", "dom": "lt2", "monotone": True})
             t.outputs.append("sq")
+        elif kind == "via_helper":
+            # the subsumptive relation is mutually recursive with an ordinary helper relation (one SCC, two relations);
+            # the helper's name sorts after / before the subsumptive one depending on the seed
+            bound = r.choice([10, 16, 24])
+            helper = r.choice(["zreach", "areach"])
+            t.decls.append(".decl hd(x:number,d:number) btree_delete")
+            t.decls.append(".decl %s(x:number,d:number)" % helper)
+            t.rules.append({"head": ("hd", [V("x"), C(0)]), "body": [("atom", "n1", [V("x")]), ("cmp", "<", V("x"), C(3))]})
+            t.rules.append({"head": (helper, [V("y"), ADD(V("d"), V("w"))]),
+                            "body": [("atom", "hd", [V("x"), V("d")]), ("atom", "ew", [V("x"), V("y"), V("w")]), ("cmp", "<", ADD(V("d"), V("w")), C(bound))]})
+            t.rules.append({"head": ("hd", [V("y"), V("d")]), "body": [("atom", helper, [V("y"), V("d")])]})
+            t.extra_text.append("hd(x,d1) <= hd(x,d2) :- d2 < d1.")
+            t.meta["subsumed"].append({"rel": "hd", "dom": "lt1", "monotone": True})
+            t.outputs.append("hd")
+        elif kind == "merge":
+            # a helper rule that uses the subsumptive relation twice (two tuples of the same delta must meet)
+            bound = r.choice([12, 20])
+            helper = r.choice(["zsum", "asum"])
+            t.decls.append(".decl md(x:number,d:number) btree_delete")
+            t.decls.append(".decl %s(x:number,d:number)" % helper)
+            t.rules.append({"head": ("md", [V("x"), V("w")]), "body": [("atom", "ew", [V("x"), U, V("w")])]})
+            t.rules.append({"head": (helper, [V("x"), ADD(V("a"), V("b"))]),
+                            "body": [("atom", "md", [V("x"), V("a")]), ("atom", "e1", [V("x"), V("y")]), ("atom", "md", [V("y"), V("b")]),
+                                     ("cmp", "<", ADD(V("a"), V("b")), C(bound))]})
+            t.rules.append({"head": ("md", [V("x"), V("d")]), "body": [("atom", helper, [V("x"), V("d")]), ("cmp", "<", V("d"), C(3))]})
+            t.extra_text.append("md(x,d1) <= md(x,d2) :- d2 < d1.")
+            t.meta["subsumed"].append({"rel": "md", "dom": "lt1", "monotone": False})
+            t.outputs.append("md")
         elif kind == "countdown":
             # every iteration derives a tuple that dominates the previous one: a chain a > b > c ... arriving one per iteration
             start = r.choice([6, 10, 15])
